@@ -298,9 +298,9 @@ def cli_family(run, rules, modes, rule_text, flagged=None, full_model=False):
     for mode in modes:
         if mode == "long":
             # random walks through the command model (TLC simulation mode): histories of 12 commands
-            n = 16 if run.tier == "quick" else 300
+            n = 16 if run.tier == "quick" else 80
             cases, r = run.mc("MC_Cli", {"KV_MODE": mode}, out_name="cases-%s.ndjson" % mode, workers=1, cfg="MC_CliLite",
-                              simulate="num=%d" % n, extra=["-depth", "13", "-seed", str(run.seed)])
+                              simulate="num=%d" % n, extra=["-depth", "13", "-seed", str(run.seed)], timeout=5400)
         else:
             # the refinement / frame / style action property of the text-level model is checked on the pair
             # histories in the quick tier and on everything in the thorough tier
